@@ -13,7 +13,7 @@ import Tahoe.Immutable.LemmasUploadable
 | … and with any read chunking | `chunking_irrelevant` (key-hashing loop over any read sequence, short reads included), `cap_source_independent` (piece sizes of `IUploadable.read`) |
 | changing the secret, k, N or segment size changes the storage index | `params_separate`: the tag and the byte string fed to SHA-256d differ. That the *hash values* (key, storage index) then differ is collision resistance of truncated SHA-256d: **not a theorem** (no satisfiable hypothesis states it for a 16-byte hash); **monitor only** |
 | files of at most 55 bytes get a literal cap that embeds the data | `lit_threshold` (threshold pinned to 55 by `constants_pinned`), `literal_any_source` (through `read_this_many_bytes` for any source, short reads allowed) |
-| … and needs no servers | `lit_threshold` / `literal_any_source`: `sharesPushed = 0`, no storage index, and the result is independent of every server-side input (the model's literal branch has no access to servers); that the *code* decides LIT before looking at servers is **correspondence + monitor** (zero-server grids in harness/props/c05.py) |
+| … and needs no servers | `lit_needs_no_servers`: in the model of `Uploader.upload` that takes the broker's server list as an input (`uploadCapOn`, order of tests as in the code: size threshold first, servers consulted only on the CHK branch), a file of ≤ 55 bytes gets its literal cap for *every* server count including zero, while a larger file on a client without servers fails with NoServersError; plus `lit_threshold` / `literal_any_source` (`sharesPushed = 0`, no storage index).  `uploadCapOn` is tied to the code on zero-server and normal grids (driver op `capon`) |
 | uploads without a convergence secret get a fresh random key | `random_key_is_input` (the key in the cap is exactly the `os.urandom` output); freshness itself is a property of `os.urandom`: **monitor only** |
 -/
 namespace Tahoe.C05
@@ -258,6 +258,49 @@ example :
     (Uploadable.uploadCapVia (fun _ _ _ _ _ => [])
       { size := 4, read := fun pos _ => [(([5, 6, 7, 8] : List UInt8).drop pos).take 1], key := fun _ => [] } 0 0 0 0).2
       = some { cap := .lit [5, 6, 7, 8], sharesPushed := 0 } := by
+  decide
+
+/-- `lit_needs_no_servers`: with the storage broker's server list as an input of `Uploader.upload`
+    (`uploadCapOn`), a file of at most 55 bytes gets exactly the same literal result whatever the number of
+    servers — zero included — and whatever the secret, random source, parameters and read pattern; a file of more
+    than 55 bytes on a client without servers never gets a cap (NoServersError, or a parameter error), and with at
+    least one server known it gets what `uploadCap` says. -/
+theorem lit_needs_no_servers {S : Type} (h : Hasher S) (uebHashOf : List UInt8 → List UInt8 → Nat → Nat → Nat → List UInt8)
+    (servers : Nat) (convergence : Option (List UInt8)) (urandom pt : List UInt8) (k n maxSeg : Nat)
+    (reads : List (List UInt8)) :
+    (pt.length ≤ 55 → uploadCapOn h uebHashOf servers convergence urandom k n maxSeg pt reads
+        = .ok { cap := .lit pt, sharesPushed := 0 }) ∧
+    (55 < pt.length → ∀ r, uploadCapOn h uebHashOf 0 convergence urandom k n maxSeg pt reads ≠ .ok r) ∧
+    (55 < pt.length → 0 < servers → ∀ r, uploadCap h uebHashOf convergence urandom k n maxSeg pt reads = some r →
+        uploadCapOn h uebHashOf servers convergence urandom k n maxSeg pt reads = .ok r) := by
+  have hiff : isLiteral pt.length = true ↔ pt.length ≤ 55 := by
+    simp only [isLiteral, decide_eq_true_eq]; exact Iff.rfl
+  refine ⟨fun hle => ?_, fun hgt r => ?_, fun hgt hs r hr => ?_⟩
+  · unfold uploadCapOn; rw [hiff.mpr hle]; rfl
+  · have hf : isLiteral pt.length = false := by
+      cases hb : isLiteral pt.length with
+      | false => rfl
+      | true => have := hiff.mp hb; omega
+    unfold uploadCapOn
+    simp only [hf, Bool.false_eq_true, if_false]
+    cases uploadCap h uebHashOf convergence urandom k n maxSeg pt reads with
+    | none => intro hh; cases hh
+    | some r' => simp
+  · have hf : isLiteral pt.length = false := by
+      cases hb : isLiteral pt.length with
+      | false => rfl
+      | true => have := hiff.mp hb; omega
+    unfold uploadCapOn
+    simp only [hf, Bool.false_eq_true, if_false, hr]
+    rw [if_neg (by omega)]
+
+example :
+    let h : Hasher (List UInt8) := ⟨[], fun st b => st ++ b, fun st => st⟩
+    uploadCapOn h (fun _ _ _ _ _ => [0]) 0 (some [1]) [] 3 10 128 (List.replicate 55 7) [] = .ok { cap := .lit (List.replicate 55 7), sharesPushed := 0 } ∧
+    uploadCapOn h (fun _ _ _ _ _ => [0]) 0 (some [1]) [] 3 10 128 (List.replicate 56 7) [List.replicate 56 7] = .noServers ∧
+    uploadCapOn h (fun _ _ _ _ _ => [0]) 4 (some [1]) [] 3 10 128 (List.replicate 56 7) [List.replicate 56 7]
+      = (match uploadCap h (fun _ _ _ _ _ => [0]) (some [1]) [] 3 10 128 (List.replicate 56 7) [List.replicate 56 7] with
+         | some r => .ok r | none => .error) := by
   decide
 
 end Tahoe.C05
